@@ -467,6 +467,15 @@ impl NetcodeServer {
                     token_sequence,
                 } => {
                     let challenge_token = ChallengeToken::decode(token_data, token_sequence, &self.challenge_key)?;
+                    if challenge_token.client_id != pending.client_id || challenge_token.user_data != pending.user_data {
+                        log::debug!(
+                            "Ignored connection response from {}: challenge token was issued for Client {}, pending Client is {}.",
+                            addr,
+                            challenge_token.client_id,
+                            pending.client_id
+                        );
+                        return Ok(ServerResult::None);
+                    }
                     let mut pending = self.pending_clients.remove(&addr).unwrap();
                     if find_client_slot_by_id(&self.clients, challenge_token.client_id).is_some() {
                         log::debug!(
